@@ -22,21 +22,24 @@ const ModulePath = "github.com/free5gc/ike"
 
 // Ctx is the loaded program.
 type Ctx struct {
-	Dir      string
-	GOARCH   string
-	Fset     *token.FileSet
-	Pkgs     []*packages.Package
-	Prog     *ssa.Program
-	SSAPkgs  map[string]*ssa.Package // by import path
-	ModFuncs []*ssa.Function         // every function with a body in module packages (incl. closures), sorted
-	inMod    map[*ssa.Package]bool
-	modPath  string
-	cgCache  *callGraph
-	effCache map[*ssa.Function]*funcEffects
-	fieldTab map[string]*fieldStores
-	fieldEsc map[string]bool
-	sumFA    map[*ssa.Function]*FA
-	crDepth  int
+	Dir       string
+	GOARCH    string
+	Fset      *token.FileSet
+	Pkgs      []*packages.Package
+	Prog      *ssa.Program
+	SSAPkgs   map[string]*ssa.Package // by import path
+	ModFuncs  []*ssa.Function         // every function with a body in module packages (incl. closures), sorted
+	inMod     map[*ssa.Package]bool
+	modPath   string
+	cgCache   *callGraph
+	effCache  map[*ssa.Function]*funcEffects
+	fieldTab  map[string]*fieldStores
+	fieldEsc  map[string]bool
+	sumFA     map[*ssa.Function]*FA
+	crDepth   int
+	slotCache *slotTables
+	curTables *slotTables
+	fieldBits map[string]int
 }
 
 // CannotDecide is the error class for "the checker itself could not run" (exit 2).
